@@ -227,6 +227,43 @@ class _Norm(ast.NodeTransformer):
         return node
 
 
+def _inline_guard_temps(fn):
+    """N0   t = E; if t: ...   ->   if E: ...      (t assigned right before the test and used nowhere else)"""
+    uses = {}
+    for n in ast.walk(fn):
+        if isinstance(n, ast.Name):
+            uses[n.id] = uses.get(n.id, 0) + 1
+
+    def blocks(node):
+        for fld in ('body', 'orelse', 'finalbody'):
+            b = getattr(node, fld, None)
+            if isinstance(b, list) and b and isinstance(b[0], ast.stmt):
+                yield b
+        for h in getattr(node, 'handlers', []) or []:
+            yield h.body
+    for node in ast.walk(fn):
+        if isinstance(node, (ast.Lambda,)):
+            continue
+        for b in blocks(node):
+            i = 0
+            while i + 1 < len(b):
+                a, nxt = b[i], b[i + 1]
+                if isinstance(a, ast.Assign) and len(a.targets) == 1 and isinstance(a.targets[0], ast.Name) \
+                        and isinstance(nxt, ast.If) and uses.get(a.targets[0].id, 0) == 2:
+                    t = a.targets[0].id
+                    test = nxt.test
+                    if isinstance(test, ast.Name) and test.id == t:
+                        nxt.test = a.value
+                        del b[i]
+                        continue
+                    if isinstance(test, ast.UnaryOp) and isinstance(test.op, ast.Not) and isinstance(test.operand, ast.Name) \
+                            and test.operand.id == t:
+                        test.operand = a.value
+                        del b[i]
+                        continue
+                i += 1
+
+
 _CACHE = {}
 
 
@@ -234,6 +271,7 @@ def normalized(fn: ast.FunctionDef) -> ast.FunctionDef:
     k = id(fn)
     if k not in _CACHE:
         fn2 = copy.deepcopy(fn)
+        _inline_guard_temps(fn2)
         _Norm(fn2).visit(fn2)
         _CACHE[k] = (fn, fn2)          # keep fn alive: ids are reused otherwise
     return _CACHE[k][1]
